@@ -127,10 +127,15 @@ class RunLoop(FnSpec):
     def globals(self):
         def is_set(ex, recv, a, k, n):
             self.last_flag = ex.fresh_term(z3.BoolSort(), "stopped")
+            self.checked_since_call = True
             return VBool(self.last_flag)
 
         def blocking(name):
             def h(ex, recv, a, k, n):
+                # a thread that was told to stop before it ran (or between two rounds) must not do another round
+                ex.oblige("round[the stop flag is looked at, and found clear, right before every round of work]",
+                          z3.And(z3.BoolVal(bool(self.checked_since_call)), z3.Not(self.last_flag)) if self.last_flag is not None else False)
+                self.checked_since_call = False
                 self.calls.append(name)
                 if name == "dispatch_events" and ex.choose(2, "queue.Empty") == 1:
                     raise Raise(VExc("queue.Empty"), "dispatch_events()")
@@ -142,6 +147,7 @@ class RunLoop(FnSpec):
         self.me = VObj(self.cls)
         self.calls = []
         self.last_flag = None
+        self.checked_since_call = False
         ex.heap[(self.me.id, "_stopped_event")] = VOpaque("event")
         ex.heap[(self.me.id, "_timeout")] = VOpaque("timeout")
         ex.heap[(self.me.id, "_event_queue")] = VOpaque("event_queue")
